@@ -171,6 +171,28 @@ pub fn cuts_stage(rep: &mut Report, env: &AppEnv, stage: &str, pls: &[Vec<u8>], 
     });
 }
 
+/// Two-byte neighbourhood (thorough tiers): every adjacent byte pair of each base message set to
+/// all 65536 values, over the given paths; judged by the reference model like every other sweep.
+pub fn pair_faults_stage(rep: &mut Report, env: &AppEnv, stage: &str, bases: &[Vec<u8>], paths: &[Path]) {
+    let mut offs = vec![0u64];
+    for b in bases {
+        offs.push(offs.last().unwrap() + (b.len().saturating_sub(1) as u64) * 65536);
+    }
+    let np = paths.len() as u64;
+    let total = *offs.last().unwrap();
+    let space = format!("{} messages x every adjacent byte pair x all 65536 values x {} paths", bases.len(), np);
+    sweep_app(rep, env, stage, &space, total * np, |i| {
+        let j = i / np;
+        let k = offs.partition_point(|o| *o <= j) - 1;
+        let r = j - offs[k];
+        let mut m = bases[k].clone();
+        let pos = (r / 65536) as usize;
+        m[pos] = (r >> 8) as u8;
+        m[pos + 1] = r as u8;
+        (paths[(i % np) as usize], m)
+    });
+}
+
 fn envs(rep: &mut Report) -> Vec<AppEnv> {
     let mut v = Vec::new();
     // lists + every log-macro argument evaluated (behaviour must not depend on verbosity)
@@ -373,6 +395,24 @@ pub fn run_c13(rep: &mut Report, thorough: bool) {
                 (Path { tcp: true, v6: d[2] == 1, ports: d[2] as usize }, vec![first, core[d[0] as usize].clone(), third])
             });
         }
+        if thorough {
+            let bases: Vec<Vec<u8>> = vec![b"GET / HTTP/1.1\r\n\r\n".to_vec(), b"POST /a HTTP/1.0\nH: v\n\n".to_vec(), b"OPTIONS /x HTTP/1.1\r\nHost: a\r\nB:c\r\n\r\n".to_vec()];
+            pair_faults_stage(rep, &env, &format!("http-pair-faults-{}", tag), &bases, &[Path { tcp: false, v6: false, ports: 0 }, Path { tcp: true, v6: true, ports: 1 }]);
+            // every 2-cut of the core requests
+            let mut plan: Vec<(usize, usize, usize)> = Vec::new();
+            for (ci, c) in core.iter().enumerate().step_by(3) {
+                for a in 1..c.len() {
+                    for b in a + 1..c.len() {
+                        plan.push((ci, a, b));
+                    }
+                }
+            }
+            sweep_conv(rep, &env, &format!("http-all-2-cuts-{}", tag), "every third core request x every pair of cut positions (3 segments) over TCP", plan.len() as u64, |i| {
+                let (ci, a, b) = plan[i as usize];
+                let c = &core[ci];
+                (Path { tcp: true, v6: i % 2 == 1, ports: (i % 2) as usize }, vec![c[..a].to_vec(), c[a..b].to_vec(), c[b..].to_vec()])
+            });
+        }
         if thorough && env.cfg.self_ips.is_empty() {
             // two faults: every pair of single faults for three short requests
             let bases: Vec<Vec<u8>> = vec![b"GET / HTTP/1.1\r\n\r\n".to_vec(), b"PUT /a HTTP/1.0\nA:b\n\n".to_vec(), b"HEAD /x HTTP/1.1\r\nH: v\r\n\r\n".to_vec()];
@@ -489,6 +529,106 @@ pub fn run_c14(rep: &mut Report, thorough: bool) {
             sweep_app(rep, &env, &format!("dns-many-{}", tag), "queries with 100..800 root-name questions", 8, |i| {
                 let qs: Vec<(Vec<Vec<u8>>, u16, u16)> = (0..(i + 1) * 100).map(|_| (vec![], 1u16, 1u16)).collect();
                 (p4, appdns::build_query(3, 0x0100, &qs))
+            });
+            // --- deep stages (thorough only) ---
+            // every name shape with one or two labels: all (a, b) with a in 1..63, b in 0..63
+            sweep_app(rep, &env, &format!("dns-label-lengths-{}", tag), "names of one or two labels: first label length 1..63 x second label length 0..63 x {1, 3} questions", 63 * 64 * 2, |i| {
+                let d = unrank(i, &[63, 64, 2]);
+                let mut name = vec![vec![b'a'; d[0] as usize + 1]];
+                if d[1] > 0 {
+                    name.push(vec![b'b'; d[1] as usize]);
+                }
+                let n = if d[2] == 0 { 1 } else { 3 };
+                let qs: Vec<(Vec<Vec<u8>>, u16, u16)> = (0..n).map(|_| (name.clone(), 1u16, 1u16)).collect();
+                (p4, appdns::build_query(0x0a0b, 0x0100, &qs))
+            });
+            // total name length: every length 1..255 reached with 63-byte labels and a remainder
+            sweep_app(rep, &env, &format!("dns-name-lengths-{}", tag), "names of every encoded length 3..260 (63-byte labels + remainder; the last 5 exceed 255) x question count 1..3", 258 * 3, |i| {
+                let d = unrank(i, &[258, 3]);
+                let mut left = d[0] as usize + 1; // label bytes incl. length octets, without the root
+                let mut name: Vec<Vec<u8>> = Vec::new();
+                while left > 1 {
+                    let l = (left - 1).min(63);
+                    name.push(vec![b'x'; l]);
+                    left -= l + 1;
+                }
+                let qs: Vec<(Vec<Vec<u8>>, u16, u16)> = (0..=d[1]).map(|_| (name.clone(), 1u16, 1u16)).collect();
+                (p4, appdns::build_query(0x0c0d, 0, &qs))
+            });
+            // label content: every byte value at the first, middle and last position of a label
+            sweep_app(rep, &env, &format!("dns-label-bytes-{}", tag), "every byte value 0..255 at 3 positions of a 5-byte label x {first, second} question", 256 * 3 * 2, |i| {
+                let d = unrank(i, &[256, 3, 2]);
+                let mut l = b"hello".to_vec();
+                l[[0usize, 2, 4][d[1] as usize]] = d[0] as u8;
+                let special = (vec![l, b"org".to_vec()], 1u16, 1u16);
+                let plain = (dns_labels("a.b"), 1u16, 1u16);
+                let qs = if d[2] == 0 { vec![special, plain] } else { vec![plain, special] };
+                (p4, appdns::build_query(0x0e0f, 0x0100, &qs))
+            });
+            // label length octet: every value 0..255 (compression pointers, reserved prefixes, overlong)
+            sweep_app(rep, &env, &format!("dns-length-octets-{}", tag), "first length octet of the name 0..255 x following bytes {4 letters + root, 64 letters + root, 1 byte}", 256 * 3, |i| {
+                let d = unrank(i, &[256, 3]);
+                let mut m = appdns::build_query(0x1011, 0x0100, &[]);
+                m[4] = 0;
+                m[5] = 1;
+                m.push(d[0] as u8);
+                match d[1] {
+                    0 => m.extend_from_slice(b"abcd\x00"),
+                    1 => {
+                        m.extend_from_slice(&[b'z'; 64]);
+                        m.push(0)
+                    }
+                    _ => m.push(0x0c),
+                }
+                m.extend_from_slice(&[0, 1, 0, 1]);
+                (p4, m)
+            });
+            // qtype x qclass grid on the low bytes, and the high bytes
+            sweep_app(rep, &env, &format!("dns-type-class-grid-{}", tag), "qtype low byte 0..255 x qclass low byte 0..255; qtype high byte x qclass high byte", 65536 * 2, |i| {
+                let d = unrank(i, &[2, 256, 256]);
+                let (t, c) = if d[0] == 0 { (d[1] as u16, d[2] as u16) } else { ((d[1] as u16) << 8 | 1, (d[2] as u16) << 8 | 1) };
+                (p4, appdns::build_query(0x1213, 0x0100, &[(dns_labels("grid.example"), t, c)]))
+            });
+            // header counts: ancount / nscount / arcount 0..3 each with and without that many records
+            sweep_app(rep, &env, &format!("dns-section-counts-{}", tag), "ancount x nscount x arcount in 0..3, records present or absent, 1 or 2 questions", 64 * 2 * 2, |i| {
+                let d = unrank(i, &[4, 4, 4, 2, 2]);
+                let qs: Vec<(Vec<Vec<u8>>, u16, u16)> = (0..=d[4]).map(|_| (dns_labels("c.d"), 1u16, 1u16)).collect();
+                let mut tail = Vec::new();
+                if d[3] == 1 {
+                    for _ in 0..(d[0] + d[1] + d[2]) {
+                        tail.extend(appdns::a_record(&dns_labels("c.d"), [1, 2, 3, 4]));
+                    }
+                }
+                (p4, appdns::build_message(0x1415, 0x0100, &qs, d[0] as u16, d[1] as u16, d[2] as u16, &tail))
+            });
+            // every single-byte fault of 4 queries
+            {
+                let bases: Vec<Vec<u8>> = vec![
+                    appdns::build_query(5, 0x0100, &q1),
+                    appdns::build_query(6, 0, &[(dns_labels("a.b"), 1, 1), (dns_labels("c"), 1, 1)]),
+                    appdns::build_query(7, 0x0100, &[(vec![], 1, 1)]),
+                    appdns::build_query(8, 0x0100, &[(dns_labels("mail.example.org"), 1, 1), (dns_labels("mail.example.org"), 1, 1), (dns_labels("x"), 1, 1)]),
+                ];
+                let mut offs = vec![0u64];
+                for b in &bases {
+                    offs.push(offs.last().unwrap() + b.len() as u64 * 256);
+                }
+                sweep_app(rep, &env, &format!("dns-byte-faults-{}", tag), "4 queries x every byte position x all 256 values", *offs.last().unwrap(), |i| {
+                    let k = offs.partition_point(|o| *o <= i) - 1;
+                    let j = i - offs[k];
+                    let mut m = bases[k].clone();
+                    m[(j / 256) as usize] = j as u8;
+                    (p4, m)
+                });
+            }
+            pair_faults_stage(rep, &env, &format!("dns-pair-faults-{}", tag), &[appdns::build_query(5, 0x0100, &q1), appdns::build_query(6, 0, &[(dns_labels("a.b"), 1, 1), (vec![], 1, 1)])], &[p4]);
+            sweep_app(rep, &env, &format!("dns-id-x-flags-{}", tag), "id 0..65535 x flag word high byte 0..255", 65536 * 256, |i| (p4, appdns::build_query((i >> 8) as u16, ((i & 0xff) as u16) << 8, &q1)));
+            sweep_app(rep, &env, &format!("dns-type-x-class-{}", tag), "qtype 0..65535 x qclass {0..255}", 65536 * 256, |i| (p4, appdns::build_query(1, 0, &[(dns_labels("a.b"), (i >> 8) as u16, (i & 0xff) as u16)])));
+            // ids x flags: low/high byte grids
+            sweep_app(rep, &env, &format!("dns-id-flags-grid-{}", tag), "id {low byte, high byte} 0..255 x flag word high byte 0..255 (QR, opcode, AA, TC, RD)", 2 * 256 * 256, |i| {
+                let d = unrank(i, &[2, 256, 256]);
+                let id = if d[0] == 0 { d[1] as u16 } else { (d[1] as u16) << 8 };
+                (p4, appdns::build_query(id, (d[2] as u16) << 8, &q1))
             });
         }
     }
@@ -682,7 +822,25 @@ pub fn run_c15(rep: &mut Report, thorough: bool) {
             });
             cuts_stage(rep, &env, &format!("stun-cuts-{}", tag), &[big.clone()], 28);
         }
-        let _ = thorough;
+        if thorough {
+            let bases: Vec<Vec<u8>> = vec![stun_magic(&[], &ID12), stun_classic(&stun_attr(3, &[0, 0, 0, 2]), &ID16), stun_magic(&[stun_attr(0x8022, b"abcd"), stun_attr(3, &[0, 0, 0, 2])].concat(), &ID12)];
+            pair_faults_stage(rep, &env, &format!("stun-pair-faults-{}", tag), &bases, &[pu4, pu6]);
+            // one attribute: every type word x declared length {0,4,8} (well-formed), both forms
+            sweep_app(rep, &env, &format!("stun-attr-types-{}", tag), "one attribute of every type 0..65535 x value length {0,4,8} x {magic, magic + trailing CHANGE-REQUEST} over UDP", 65536 * 3 * 2, |i| {
+                let d = unrank(i, &[65536, 3, 2]);
+                let mut body = stun_attr(d[0] as u16, &vec![0x5a; d[1] as usize * 4]);
+                if d[2] == 1 {
+                    body.extend(stun_attr(3, &[0, 0, 0, 2]));
+                }
+                (pu4, stun_magic(&body, &ID12))
+            });
+            // CHANGE-REQUEST value: all 65536 values of the low half, high half, x both IP versions
+            sweep_app(rep, &env, &format!("stun-change-values-{}", tag), "CHANGE-REQUEST value low 16 bits x high 16 bits halves (65536 each) x {v4,v6}", 65536 * 2 * 2, |i| {
+                let d = unrank(i, &[2, 2, 65536]);
+                let v: u32 = if d[1] == 0 { d[2] as u32 } else { (d[2] as u32) << 16 };
+                (if d[0] == 0 { pu4 } else { pu6 }, stun_classic(&stun_attr(3, &v.to_be_bytes()), &ID16))
+            });
+        }
     }
     rep.states = rep.sink.classes.len() as u64;
 }
@@ -845,6 +1003,36 @@ pub fn run_c16(rep: &mut Report, thorough: bool) {
                 );
                 rep.stage(&format!("rpc-reply-sizes-{}", tag), "11 destination addresses (printed forms of every length) x 5 destination ports x 6 portmapper calls x {UDP, TCP}", product(&dims), t0);
             }
+        }
+        if thorough {
+            let pt = Path { tcp: true, v6: true, ports: 1 };
+            pair_faults_stage(rep, &env, &format!("rpc-pair-faults-udp-{}", tag), &[mk(pu4, 0x61626364, 100000, 2, 3, &[], &[])], &[pu4]);
+            pair_faults_stage(rep, &env, &format!("rpc-pair-faults-tcp-{}", tag), &[mk(pt, 0x61626364, 100000, 4, 4, &[1, 2, 3, 4], &[])], &[pt]);
+            // program / version / procedure over the 32-bit edge values
+            let e = crate::deviate::EDGE32;
+            let ne = e.len() as u64;
+            sweep_app(rep, &env, &format!("rpc-edge-words-{}", tag), "program x version x procedure over 16 edge values of u32 each (+ the portmapper program) x rpc version {0,1,2,3} x 4 paths", (ne + 1) * ne * ne * 4 * 4, |i| {
+                let d = unrank(i, &[ne + 1, ne, ne, 4, 4]);
+                let prog = if d[0] == ne { 100000 } else { e[d[0] as usize] };
+                let p = paths[d[4] as usize];
+                let b = apprpc::build_call(0x61626364, d[3] as u32, prog, e[d[1] as usize], e[d[2] as usize], &[], &[]);
+                (p, if p.tcp { apprpc::with_record_mark(&b) } else { b })
+            });
+            // credential x verifier lengths: every multiple of 4 up to 400 each
+            sweep_app(rep, &env, &format!("rpc-cred-verf-lengths-{}", tag), "credential length 0..400 step 4 x verifier length 0..400 step 4 x {UDP v4, TCP v6}", 101 * 101 * 2, |i| {
+                let d = unrank(i, &[101, 101, 2]);
+                let cred: Vec<u8> = (0..d[0] as usize * 4).map(|k| k as u8).collect();
+                let verf: Vec<u8> = (0..d[1] as usize * 4).map(|k| !(k as u8)).collect();
+                let p = if d[2] == 0 { pu4 } else { pt };
+                (p, mk(p, 0x61626364, 100000, 3, 3, &cred, &verf))
+            });
+            // XID: all 65536 values of each half
+            sweep_app(rep, &env, &format!("rpc-xid-halves-{}", tag), "XID low half and high half over all 65536 values x {UDP, TCP}", 65536 * 2 * 2, |i| {
+                let d = unrank(i, &[2, 2, 65536]);
+                let x: u32 = if d[1] == 0 { 0x61620000 | d[2] as u32 } else { (d[2] as u32) << 16 | 0x6364 };
+                let p = if d[0] == 0 { pu4 } else { pt };
+                (p, mk(p, x, 100000, 2, 3, &[], &[]))
+            });
         }
     }
     rep.states = rep.sink.classes.len() as u64;
@@ -1119,7 +1307,36 @@ pub fn run_c17(rep: &mut Report, thorough: bool) {
                 (pu, m)
             }
         });
-        let _ = thorough;
+        if thorough {
+            let bases: Vec<Vec<u8>> = vec![
+                appsmb::smb1_negotiate(&Smb1Hdr::new(0x72), &["NT LM 0.12"]),
+                appsmb::smb1_session_setup(&Smb1Hdr::new(0x73), &[1, 2, 3, 4]),
+                appsmb::smb2_negotiate(&Smb2Hdr::new(0), &[0x0202, 0x0311], &[5; 16]),
+                appsmb::smb2_session_setup(&Smb2Hdr::new(1), &[7; 8]),
+            ];
+            pair_faults_stage(rep, &env, &format!("smb-pair-faults-{}", tag), &bases, &two);
+            // longer dialect sequences
+            let s1l = sequences(d1.len(), 5);
+            sweep_app(rep, &env, &format!("smb1-dialects-5-{}", tag), "all sequences of length 1..5 over 5 dialect strings (3905) x {UDP, TCP}", s1l.len() as u64 * 2, |i| {
+                let l: Vec<&str> = s1l[(i / 2) as usize].iter().map(|k| d1[*k]).collect();
+                (two[(i % 2) as usize], appsmb::smb1_negotiate(&Smb1Hdr::new(0x72), &l))
+            });
+            let s2l = sequences(d2.len(), 5);
+            sweep_app(rep, &env, &format!("smb2-dialects-5-{}", tag), "all sequences of length 1..5 over 7 revisions (19607) x {UDP, TCP}", s2l.len() as u64 * 2, |i| {
+                let l: Vec<u16> = s2l[(i / 2) as usize].iter().map(|k| d2[*k]).collect();
+                (two[(i % 2) as usize], appsmb::smb2_negotiate(&Smb2Hdr::new(0), &l, &[5; 16]))
+            });
+            // every revision word as the only / the second dialect
+            sweep_app(rep, &env, &format!("smb2-dialect-words-{}", tag), "dialect revision 0..65535 offered alone, after 0x0202 and before 0x0311", 65536 * 3, |i| {
+                let r = (i % 65536) as u16;
+                let l: Vec<u16> = match i / 65536 {
+                    0 => vec![r],
+                    1 => vec![0x0202, r],
+                    _ => vec![r, 0x0311],
+                };
+                (pu, appsmb::smb2_negotiate(&Smb2Hdr::new(0), &l, &[5; 16]))
+            });
+        }
     }
     rep.states = rep.sink.classes.len() as u64;
 }
@@ -1218,6 +1435,10 @@ pub fn run_c18(rep: &mut Report, thorough: bool) {
             }
             (p, m)
         });
+        if thorough {
+            let bases: Vec<Vec<u8>> = vec![b"SSH-2.0-OpenSSH_8.9 x\r\n".to_vec(), b"SSH-1.99-a\r\n".to_vec(), ghost_request()[..ghost_request().len().min(40)].to_vec()];
+            pair_faults_stage(rep, &env, &format!("ssh-ghost-pair-faults-{}", tag), &bases, &[pu, pt]);
+        }
     }
     rep.states = rep.sink.classes.len() as u64;
 }
